@@ -213,3 +213,86 @@ func (ex *Exec) reflValueOp(n string, args []Value) (Value, bool) {
 	}
 	return nil, false
 }
+
+// ---- calendar fields in the day-number model of time.Time ----
+//
+// (time.Time).Year / YearDay / Month / Day / Weekday of day number d (days since
+// 2000-01-01): exact for concrete d; for symbolic d an if-then-else chain over the
+// year (month) boundaries 2000-01-01 .. 2030-12-31, a fresh unknown beyond.
+
+func init() {
+	for _, n := range []string{"(time.Time).Year", "(time.Time).YearDay", "(time.Time).Month", "(time.Time).Day", "(time.Time).Weekday"} {
+		intrinsicSet[n] = true
+	}
+}
+
+var calEpoch = time.Date(2000, 1, 1, 0, 0, 0, 0, time.UTC)
+
+func dayNo(t time.Time) int64 { return int64(t.Sub(calEpoch).Hours() / 24) }
+
+func (ex *Exec) calendarIntrinsic(n string, args []Value) (Value, bool) {
+	if !strings.HasPrefix(n, "(time.Time).") {
+		return nil, false
+	}
+	field := strings.TrimPrefix(n, "(time.Time).")
+	switch field {
+	case "Year", "YearDay", "Month", "Day", "Weekday":
+	default:
+		return nil, false
+	}
+	d := args[0].(Struct)[1].(Int)
+	conc := func(t time.Time) int64 {
+		switch field {
+		case "Year":
+			return int64(t.Year())
+		case "YearDay":
+			return int64(t.YearDay())
+		case "Month":
+			return int64(t.Month())
+		case "Day":
+			return int64(t.Day())
+		}
+		return int64(t.Weekday())
+	}
+	if d.T == nil {
+		return mkInt(conc(calEpoch.AddDate(0, 0, int(d.C))), 64, false), true
+	}
+	ts := ex.TS
+	if field == "Weekday" {
+		// 2000-01-01 was a Saturday (6); valid for d >= 0
+		return ex.intOf(ts.Op(SBV64, "bvurem", ts.Op(SBV64, "bvadd", d.T, ts.BVC(6, 64)), ts.BVC(7, 64)), 64, false), true
+	}
+	// segments on which the field is constant (Year, Month) or d - start + 1 (YearDay, Day)
+	byMonth := field == "Month" || field == "Day"
+	ex.fresh++
+	res := ts.Var(fmt.Sprintf("cal!%d", ex.fresh), SBV64) // beyond the table
+	ex.Info["calendar_model"] = "if-then-else over 2000..2030"
+	var starts []time.Time // ascending
+	for y := 2000; y <= 2030; y++ {
+		if byMonth {
+			for m := 1; m <= 12; m++ {
+				starts = append(starts, time.Date(y, time.Month(m), 1, 0, 0, 0, 0, time.UTC))
+			}
+		} else {
+			starts = append(starts, time.Date(y, 1, 1, 0, 0, 0, 0, time.UTC))
+		}
+	}
+	end := time.Date(2031, 1, 1, 0, 0, 0, 0, time.UTC)
+	inRange := ts.And(ts.BVCmp("bvsge", d.T, ts.BVC(0, 64)), ts.BVCmp("bvslt", d.T, ts.BVC(dayNo(end), 64)))
+	var chain *Term
+	for i, s := range starts { // the segment with the largest start <= d wins
+		var v *Term
+		switch field {
+		case "Year", "Month":
+			v = ts.BVC(conc(s), 64)
+		default:
+			v = ts.Op(SBV64, "bvadd", ts.Op(SBV64, "bvsub", d.T, ts.BVC(dayNo(s), 64)), ts.BVC(1, 64))
+		}
+		if i == 0 {
+			chain = v
+		} else {
+			chain = ts.Ite(ts.BVCmp("bvsge", d.T, ts.BVC(dayNo(s), 64)), v, chain)
+		}
+	}
+	return ex.intOf(ts.Ite(inRange, chain, res), 64, false), true
+}
